@@ -457,3 +457,175 @@ Proof.
     induction l as [|u l IHl]; intros [|v l0] Hy; cbn in Hy; try contradiction.
     destruct Hy as [<-|Hy]; [apply Z.mod_pos_bound; reflexivity|eapply IHl; eassumption].
 Qed.
+
+(* ---------- NTT inverts invNTT (so every NTT-domain polynomial is the transform of exactly one ring element) ---------- *)
+Lemma Forall2_refl_eq_map (f g : Z -> Z) l : (forall x, f x = g x) -> Forall2 congQ (map f l) (map g l).
+Proof. intros H. induction l; cbn; constructor; [rewrite H; reflexivity|assumption]. Qed.
+Lemma padd_cong a a' b b' : Forall2 congQ a a' -> Forall2 congQ b b' -> Forall2 congQ (padd a b) (padd a' b').
+Proof.
+  intros Ha Hb. unfold padd. apply map2_Forall2 with (RA := congQ) (RB := congQ); try assumption.
+  intros x x' y y' Hx Hy. rewrite q_eq. eapply congQ_trans; [apply congQ_mod|]. eapply congQ_trans; [|apply congQ_sym, congQ_mod]. apply congQ_add; assumption.
+Qed.
+Lemma psub_cong a a' b b' : Forall2 congQ a a' -> Forall2 congQ b b' -> Forall2 congQ (psub a b) (psub a' b').
+Proof.
+  intros Ha Hb. unfold psub. apply map2_Forall2 with (RA := congQ) (RB := congQ); try assumption.
+  intros x x' y y' Hx Hy. rewrite q_eq. eapply congQ_trans; [apply congQ_mod|]. eapply congQ_trans; [|apply congQ_sym, congQ_mod]. apply congQ_sub; assumption.
+Qed.
+Lemma pscale_cong c a a' : Forall2 congQ a a' -> Forall2 congQ (pscale c a) (pscale c a').
+Proof.
+  intros Ha. unfold pscale. apply map_Forall2 with (RA := congQ); [|exact Ha].
+  intros x x' Hx. rewrite q_eq. eapply congQ_trans; [apply congQ_mod|]. eapply congQ_trans; [|apply congQ_sym, congQ_mod]. apply congQ_mul; [reflexivity|assumption].
+Qed.
+
+Lemma NTT_rec_cong : forall depth m w w', Forall2 congQ w w' -> Forall2 congQ (NTT_rec depth m w) (NTT_rec depth m w').
+Proof.
+  induction depth as [|dp IH]; intros m w w' H; [exact H|]. cbn [NTT_rec]. apply Forall2_app'; apply IH.
+  - apply padd_cong; [apply Forall2_firstn; exact H|apply pscale_cong, Forall2_skipn; exact H].
+  - apply psub_cong; [apply Forall2_firstn; exact H|apply pscale_cong, Forall2_skipn; exact H].
+Qed.
+
+Definition kscale (k : Z) (w : list Z) : list Z := map (fun x => k * x) w.
+Lemma kscale_firstn k n w : firstn n (kscale k w) = kscale k (firstn n w).
+Proof. unfold kscale. apply firstn_map. Qed.
+Lemma kscale_skipn k n w : skipn n (kscale k w) = kscale k (skipn n w).
+Proof. unfold kscale. apply skipn_map. Qed.
+Lemma kscale_app k a b : kscale k (a ++ b) = kscale k a ++ kscale k b.
+Proof. unfold kscale. apply map_app. Qed.
+
+Lemma kscale_padd k a b : Forall2 congQ (padd (kscale k a) (kscale k b)) (kscale k (padd a b)).
+Proof.
+  revert b. induction a as [|x a IH]; intros [|y b]; cbn; try constructor.
+  - rewrite q_eq. eapply congQ_trans; [apply congQ_mod|]. unfold kscale in *.
+    eapply congQ_trans; [|apply congQ_mul; [reflexivity|apply congQ_sym, congQ_mod]]. replace (k * x + k * y) with (k * (x + y)) by ring. reflexivity.
+  - apply IH.
+Qed.
+Lemma kscale_psub k a b : Forall2 congQ (psub (kscale k a) (kscale k b)) (kscale k (psub a b)).
+Proof.
+  revert b. induction a as [|x a IH]; intros [|y b]; cbn; try constructor.
+  - rewrite q_eq. eapply congQ_trans; [apply congQ_mod|]. unfold kscale in *.
+    eapply congQ_trans; [|apply congQ_mul; [reflexivity|apply congQ_sym, congQ_mod]]. replace (k * x - k * y) with (k * (x - y)) by ring. reflexivity.
+  - apply IH.
+Qed.
+Lemma kscale_pscale k c a : Forall2 congQ (pscale c (kscale k a)) (kscale k (pscale c a)).
+Proof.
+  induction a as [|x a IH]; cbn; constructor; [|exact IH].
+  rewrite q_eq. eapply congQ_trans; [apply congQ_mod|].
+  eapply congQ_trans; [|apply congQ_mul; [reflexivity|apply congQ_sym, congQ_mod]]. replace (c * (k * x)) with (k * (c * x)) by ring. reflexivity.
+Qed.
+Lemma kscale_cong k a a' : Forall2 congQ a a' -> Forall2 congQ (kscale k a) (kscale k a').
+Proof. intros H. unfold kscale. apply map_Forall2 with (RA := congQ); [|exact H]. intros; apply congQ_mul; [reflexivity|assumption]. Qed.
+
+Lemma NTT_rec_kscale : forall depth m k w, Forall2 congQ (NTT_rec depth m (kscale k w)) (kscale k (NTT_rec depth m w)).
+Proof.
+  induction depth as [|dp IH]; intros m k w; [apply Forall2_refl; intros; reflexivity|].
+  cbn [NTT_rec]. rewrite kscale_app, kscale_firstn, kscale_skipn. apply Forall2_app'.
+  - eapply Forall2_congQ_trans; [|apply IH]. apply NTT_rec_cong.
+    eapply Forall2_congQ_trans; [|apply kscale_padd]. apply padd_cong; [apply Forall2_refl; intros; reflexivity|apply kscale_pscale].
+  - eapply Forall2_congQ_trans; [|apply IH]. apply NTT_rec_cong.
+    eapply Forall2_congQ_trans; [|apply kscale_psub]. apply psub_cong; [apply Forall2_refl; intros; reflexivity|apply kscale_pscale].
+Qed.
+
+Lemma invNTT_rec_length : forall depth base m w, length w = Nat.pow 2 depth -> length (invNTT_rec depth base m w) = length w.
+Proof.
+  induction depth as [|dp IH]; intros base m w Hl; [reflexivity|]. rewrite pow2_succ in Hl. cbn [invNTT_rec].
+  rewrite app_length, pscale_length, padd_length, psub_length; rewrite ?IH; rewrite ?firstn_length, ?skipn_length; lia.
+Qed.
+
+(* pointwise facts of one forward butterfly applied to an inverse butterfly *)
+Lemma fwd_of_inv_pointwise zm zi : congQ (zi * zm) (-1) -> forall lo' hi', length lo' = length hi' ->
+  Forall2 congQ (padd (padd lo' hi') (pscale zm (pscale (- zi) (psub lo' hi')))) (kscale 2 lo')
+  /\ Forall2 congQ (psub (padd lo' hi') (pscale zm (pscale (- zi) (psub lo' hi')))) (kscale 2 hi').
+Proof.
+  intros Hz. induction lo' as [|l lo IH]; intros [|h hi] Hl; cbn in Hl; try discriminate.
+  - split; constructor.
+  - destruct (IH hi ltac:(lia)) as [I1 I2]. unfold padd, psub, pscale, kscale in *. cbn [map map2].
+    assert (Ht : congQ ((zm * ((- zi * ((l - h) mod q)) mod q)) mod q) (l - h)).
+    { rewrite q_eq. eapply congQ_trans; [apply congQ_mod|]. eapply congQ_trans; [apply congQ_mul; [reflexivity|apply congQ_mod]|].
+      eapply congQ_trans; [apply congQ_mul; [reflexivity|apply congQ_mul; [reflexivity|apply congQ_mod]]|].
+      replace (zm * (- zi * (l - h))) with (- (zi * zm) * (l - h)) by ring.
+      eapply congQ_trans; [apply congQ_mul; [apply congQ_opp; exact Hz|reflexivity]|]. replace (- -1 * (l - h)) with (l - h) by ring. reflexivity. }
+    split; constructor; try assumption.
+    + rewrite q_eq. eapply congQ_trans; [apply congQ_mod|]. eapply congQ_trans; [apply congQ_add; [apply congQ_mod|rewrite <- q_eq; exact Ht]|].
+      replace (l + h + (l - h)) with (2 * l) by ring. reflexivity.
+    + rewrite q_eq. eapply congQ_trans; [apply congQ_mod|]. eapply congQ_trans; [apply congQ_sub; [apply congQ_mod|rewrite <- q_eq; exact Ht]|].
+      replace (l + h - (l - h)) with (2 * h) by ring. reflexivity.
+Qed.
+
+Lemma NTT_rec_invNTT_rec : forall depth lvl off w,
+  (lvl + depth = 8)%nat -> (off < Nat.pow 2 lvl)%nat -> length w = Nat.pow 2 depth ->
+  let base := Z.of_nat (Nat.pow 2 lvl) in let m := base + Z.of_nat off in
+  Forall2 congQ (NTT_rec depth m (invNTT_rec depth base m w)) (kscale (2 ^ Z.of_nat depth) w).
+Proof.
+  induction depth as [|dp IH]; intros lvl off w Hlvl Hoff Hl; cbv zeta.
+  - cbn [invNTT_rec NTT_rec]. change (2 ^ Z.of_nat 0) with 1. unfold kscale.
+    clear. induction w as [|a w IHw]; cbn [map]; [constructor|constructor; [rewrite Z.mul_1_l; reflexivity|exact IHw]].
+  - rewrite pow2_succ in Hl.
+    set (base := Z.of_nat (Nat.pow 2 lvl)). set (m := base + Z.of_nat off).
+    cbn [invNTT_rec]. set (n := Nat.pow 2 dp) in *.
+    set (lo' := invNTT_rec dp (2 * base) (2 * m) (firstn n w)). set (hi' := invNTT_rec dp (2 * base) (2 * m + 1) (skipn n w)).
+    assert (Hl1 : length lo' = n) by (unfold lo'; rewrite invNTT_rec_length; rewrite firstn_length; lia).
+    assert (Hl2 : length hi' = n) by (unfold hi'; rewrite invNTT_rec_length; rewrite skipn_length; lia).
+    set (zi := zeta (3 * base - 1 - m)).
+    set (P := padd lo' hi'). set (R := pscale (- zi) (psub lo' hi')).
+    assert (HlP : length P = n) by (unfold P; rewrite padd_length; lia).
+    cbn [NTT_rec]. fold n.
+    assert (Hf : firstn n (P ++ R) = P) by (rewrite <- HlP at 1; rewrite firstn_app, Nat.sub_diag, firstn_all; cbn; apply app_nil_r).
+    assert (Hs : skipn n (P ++ R) = R) by (rewrite <- HlP at 1; rewrite skipn_app, Nat.sub_diag, skipn_all; reflexivity).
+    rewrite Hf, Hs.
+    assert (Hrel : congQ (zi * zeta m) (-1)) by (apply (inv_rel lvl off); lia).
+    destruct (fwd_of_inv_pointwise (zeta m) zi Hrel lo' hi' ltac:(lia)) as [F1 F2]. fold P R in F1, F2.
+    assert (Hb2 : 2 * base = Z.of_nat (Nat.pow 2 (S lvl))) by (unfold base; rewrite pow2_succ; lia).
+    assert (Hm0 : 2 * m = Z.of_nat (Nat.pow 2 (S lvl)) + Z.of_nat (2 * off)) by (unfold m; lia).
+    assert (Hm1 : 2 * m + 1 = Z.of_nat (Nat.pow 2 (S lvl)) + Z.of_nat (2 * off + 1)) by (unfold m; lia).
+    pose proof (IH (S lvl) (2 * off)%nat (firstn n w)) as IH0. cbv zeta in IH0.
+    rewrite <- Hm0, <- Hb2 in IH0. specialize (IH0 ltac:(lia) ltac:(rewrite pow2_succ; lia) ltac:(rewrite firstn_length; lia)).
+    pose proof (IH (S lvl) (2 * off + 1)%nat (skipn n w)) as IH1. cbv zeta in IH1.
+    rewrite <- Hm1, <- Hb2 in IH1. specialize (IH1 ltac:(lia) ltac:(rewrite pow2_succ; lia) ltac:(rewrite skipn_length; lia)).
+    fold lo' in IH0. fold hi' in IH1.
+    assert (Hp : 2 ^ Z.of_nat (S dp) = 2 * 2 ^ Z.of_nat dp) by (rewrite Nat2Z.inj_succ, Z.pow_succ_r by lia; reflexivity).
+    replace (kscale (2 ^ Z.of_nat (S dp)) w) with (kscale (2 ^ Z.of_nat (S dp)) (firstn n w ++ skipn n w)) by (rewrite firstn_skipn; reflexivity).
+    rewrite kscale_app. apply Forall2_app'.
+    + eapply Forall2_congQ_trans; [apply NTT_rec_cong; exact F1|].
+      eapply Forall2_congQ_trans; [apply NTT_rec_kscale|].
+      eapply Forall2_congQ_trans; [apply kscale_cong; exact IH0|].
+      rewrite Hp. unfold kscale. rewrite map_map. apply Forall2_refl_eq_map. intros x. ring.
+    + eapply Forall2_congQ_trans; [apply NTT_rec_cong; exact F2|].
+      eapply Forall2_congQ_trans; [apply NTT_rec_kscale|].
+      eapply Forall2_congQ_trans; [apply kscale_cong; exact IH1|].
+      rewrite Hp. unfold kscale. rewrite map_map. apply Forall2_refl_eq_map. intros x. ring.
+Qed.
+
+Theorem NTT_invNTT x : length x = 256%nat -> Forall (fun v => 0 <= v < Q) x -> NTT (invNTT x) = x.
+Proof.
+  intros Hl Hr.
+  assert (Hx : map modq x = x).
+  { clear - Hr. induction Hr as [|v l Hv Hr IH]; [reflexivity|]. cbn [map]. rewrite IH. f_equal. apply Z.mod_small. exact Hv. }
+  unfold invNTT. rewrite Hx. unfold NTT.
+  pose proof (NTT_rec_invNTT_rec 8 0 0 x eq_refl ltac:(cbn; lia) Hl) as H. cbv zeta in H.
+  change (Z.of_nat (Nat.pow 2 0) + Z.of_nat 0) with 1 in H. change (Z.of_nat (Nat.pow 2 0)) with 1 in H. change (2 ^ Z.of_nat 8) with 256 in H.
+  apply Forall2_cong_eq; [|apply NTT_rec_range, modq_range|exact Hr].
+  set (y := invNTT_rec 8 1 1 x) in *.
+  eapply Forall2_congQ_trans; [apply NTT_rec_cong with (w' := kscale f_inv256 y)|].
+  { unfold pscale, kscale. clear. induction y as [|a y IH]; cbn [map]; constructor; [|exact IH].
+    unfold modq. rewrite q_eq. eapply congQ_trans; [apply congQ_mod|]. apply congQ_mod. }
+  eapply Forall2_congQ_trans; [apply NTT_rec_kscale|].
+  eapply Forall2_congQ_trans; [apply kscale_cong; exact H|].
+  unfold kscale. rewrite map_map. clear. induction x as [|a x IH]; cbn [map]; constructor; [|exact IH].
+  replace (f_inv256 * (256 * a)) with (f_inv256 * 256 * a) by ring.
+  eapply congQ_trans; [apply congQ_mul; [exact f256|reflexivity]|]. rewrite Z.mul_1_l. reflexivity.
+Qed.
+
+Lemma invNTT_length x : length x = 256%nat -> length (invNTT x) = 256%nat.
+Proof. intros Hl. unfold invNTT. rewrite pscale_length, invNTT_rec_length; rewrite map_length; exact Hl. Qed.
+
+(* product with an operand given in the NTT domain (the matrix A_hat of ML-DSA) *)
+Theorem ntt_domain_product a_hat s : length a_hat = 256%nat -> Forall (fun v => 0 <= v < Q) a_hat -> length s = 256%nat ->
+  invNTT (MultiplyNTT a_hat (NTT s)) = negacyclic (invNTT a_hat) s.
+Proof.
+  intros Hl Hr Hs. rewrite <- (NTT_invNTT a_hat Hl Hr) at 1. apply ntt_ring; [apply invNTT_length; exact Hl|exact Hs].
+Qed.
+
+Lemma invNTT_cong a b : Forall2 congQ a b -> invNTT a = invNTT b.
+Proof.
+  intros H. unfold invNTT. f_equal. f_equal. induction H as [|x y a b Hxy H IH]; [reflexivity|]. cbn [map]. rewrite IH. f_equal. exact Hxy.
+Qed.
